@@ -478,10 +478,9 @@ Definition render_fb (name : text) (l : list stmt) : list token :=
   kwt KFunctionBlock :: ws1 ++ id_tok name :: nl1 ++ render_list l ++ nl1 ++ kwt KEndFunctionBlock :: nl1.
 
 Theorem parse_render_fb : forall name l, l <> [] -> Forall rstmt l ->
-  in_scope token tok_class (render_list l ++ nl1 ++ kwt KEndFunctionBlock :: nl1) = true ->
   parse_fb_tokens (render_fb name l) = OParsed l.
 Proof.
-  intros name l Hn Hl Hs. destruct (render_is_spelling l Hn Hl) as (W & E).
+  intros name l Hn Hl. destruct (render_is_spelling l Hn Hl) as (W & E).
   unfold render_fb, render_list in *. destruct l as [|x l0]; [contradiction Hn; reflexivity|].
   pose proof (parse_fb_spelled [] (kwt KFunctionBlock) ws1 (id_tok name) nl1 (body_sp ss_of (x :: l0)) nl1 (kwt KEndFunctionBlock) nl1) as P.
   cbn [app] in P. rewrite P; try reflexivity; try apply ws1_triv; try apply nl1_triv; try apply nil_triv; try assumption.
@@ -490,9 +489,8 @@ Qed.
 
 (* rendering what was read gives the same tokens again: a fixed point after one round *)
 Corollary render_fixed_point : forall name l, l <> [] -> Forall rstmt l ->
-  in_scope token tok_class (render_list l ++ nl1 ++ kwt KEndFunctionBlock :: nl1) = true ->
   match parse_fb_tokens (render_fb name l) with OParsed l' => render_fb name l' = render_fb name l | _ => False end.
-Proof. intros name l Hn Hl Hs. rewrite (parse_render_fb name l Hn Hl Hs). reflexivity. Qed.
+Proof. intros name l Hn Hl. rewrite (parse_render_fb name l Hn Hl). reflexivity. Qed.
 
 (* the guard is needed: a negative constant is written '- 5', which does not read back *)
 Definition neg_witness : list stmt := [TAssign [120%N] (XUn UNot (XAtom (LfInt true 5%N)))].
